@@ -114,7 +114,8 @@ theorem split2 (raw : Bytes) (a : Nat) : raw = raw.take a ++ raw.drop a := (List
 /-! ## the invariant of parse results -/
 
 def Frame.isLeaf : Frame → Bool
-  | .raw _ | .nil | .unparsed _ _ | .foreign _ _ => true
+  | .raw _ | .nil | .unparsed _ _ => true
+  | .foreign c _ => c == "mptcp"      -- the one layer the full model leaves opaque: a TCP segment carrying the MPTCP option
   | _ => false
 
 /-- attributes of an `llc` object whose parse succeeded -/
@@ -142,7 +143,8 @@ beyond the total-length field) and `udp` (payload dropped when the length field 
 `llc`/`lldp` objects that gave up keep everything in `raw`.  For the phase-2 classes (`ext`) the statement is: the bytes handed
 to the next layer are a contiguous slice of the object's bytes. -/
 def Frame.Tiles : Frame → Prop
-  | .raw _ | .nil | .unparsed _ _ | .foreign _ _ | .lldp _ _ _ => True
+  | .raw _ | .nil | .unparsed _ _ | .lldp _ _ _ => True
+  | .foreign c _ => c = "mptcp"
   | .eth _ r n => (∃ hd, hd.length = 14 ∧ r = hd ++ n.bytes) ∧ n.Tiles
   | .vlan _ r n => (∃ hd, hd.length = 4 ∧ r = hd ++ n.bytes) ∧ n.Tiles
   | .llc h p r n => (p = true → ∃ hd, hd.length = h.length ∧ r = hd ++ n.bytes) ∧ (p = false → n = .nil) ∧ n.Tiles
@@ -156,7 +158,8 @@ def Frame.Tiles : Frame → Prop
 /-- inside an IPv4 datagram (`l4` = directly the payload of an IPv4 header, where UDP/TCP/ICMP objects live).  Sub-chains below
 a phase-2 object carry the tiling only (`pack()` of those classes is not modelled). -/
 def GoodIn : Bool → Frame → Prop
-  | _, .raw _ | _, .nil | _, .unparsed _ _ | _, .foreign _ _ => True
+  | _, .raw _ | _, .nil | _, .unparsed _ _ => True
+  | _, .foreign c _ => c = "mptcp"
   | l4, .udp h r n => l4 = true ∧ h.Fits ∧ (n.isLeaf = true ∨ (n.isExt = true ∧ n.Tiles)) ∧
       ∃ hd cut, hd.length = 8 ∧ r = hd ++ (n.bytes ++ cut)
   | l4, .tcp h r n => l4 = true ∧ h.Fits ∧ (∀ o ∈ h.opts, o.OK) ∧ 20 + (optsBytes h.opts).length ≤ h.off * 4 ∧ h.off < 16 ∧
@@ -172,7 +175,8 @@ def GoodIn : Bool → Frame → Prop
 
 /-- at frame level -/
 def Good : Frame → Prop
-  | .raw _ | .nil | .unparsed _ _ | .foreign _ _ => True
+  | .raw _ | .nil | .unparsed _ _ => True
+  | .foreign c _ => c = "mptcp"
   | .eth h r n => h.Fits ∧ (∃ hd, hd.length = 14 ∧ r = hd ++ n.bytes) ∧ Good n
   | .vlan h r n => h.Fits ∧ (∃ hd, hd.length = 4 ∧ r = hd ++ n.bytes) ∧ Good n
   | .llc h p r n => (p = true → LlcFits h ∧ ∃ hd, hd.length = h.length ∧ r = hd ++ n.bytes) ∧ (p = false → n = .nil) ∧ Good n
@@ -277,6 +281,23 @@ theorem good_tiles : ∀ (f : Frame), Good f → f.Tiles := by
   | llc h p r n ih => intro g; obtain ⟨a, b, g'⟩ := g; exact ⟨fun hp => (a hp).2, b, ih g'⟩
   | arp h r n ih => intro g; obtain ⟨_, hl, t⟩ := g; exact ⟨t, tiles_leaf n hl⟩
   | ipv4 h r n ih => intro g; exact goodIn_tiles _ false g
+
+/-- the classes of the layers that the model leaves opaque (`Frame.foreign`) -/
+def Frame.foreigns : Frame → List String
+  | .foreign c _ => [c]
+  | .eth _ _ n | .vlan _ _ n | .llc _ _ _ n | .arp _ _ n | .ipv4 _ _ n | .udp _ _ n | .tcp _ _ n | .icmp _ _ n | .echo _ _ n
+  | .unreach _ _ n | .timeEx _ _ n | .ext _ _ n => n.foreigns
+  | .raw _ | .nil | .unparsed _ _ | .lldp _ _ _ => []
+
+/-- in a well-formed chain the only opaque layer is a TCP segment that carries the MPTCP option -/
+theorem tiles_foreigns : ∀ (f : Frame), f.Tiles → ∀ c ∈ f.foreigns, c = "mptcp" := by
+  intro f
+  induction f with
+  | raw _ | nil | unparsed _ _ | lldp _ _ _ => intro _ c hc; simp [Frame.foreigns] at hc
+  | foreign c' _ => intro h c hc; simp [Frame.foreigns] at hc; subst hc; exact h
+  | eth _ _ _ ih | vlan _ _ _ ih | arp _ _ _ ih | ipv4 _ _ _ ih | udp _ _ _ ih | tcp _ _ _ ih | icmp _ _ _ ih | echo _ _ _ ih
+  | unreach _ _ _ ih | timeEx _ _ _ ih | ext _ _ _ ih => intro h c hc; exact ih h.2 c (by simpa [Frame.foreigns] using hc)
+  | llc _ _ _ _ ih => intro h c hc; exact ih h.2.2 c (by simpa [Frame.foreigns] using hc)
 
 theorem specX_good (f : Frame) (h : SpecX f) : Good f := by
   obtain ⟨ht, hl | he⟩ := h
@@ -602,6 +623,11 @@ theorem ipv4Dispatch_spec (guard : Bool) (next : K → Bytes → P Frame) (frag 
       · rw [if_pos hu]; exact .inl ⟨_, rfl, .inr rfl, trivial⟩
       · rw [if_neg hu]; exact .inl ⟨_, rfl, .inr h2, h3⟩
     · simp only [he]; exact .inr ⟨e, rfl, hf⟩
+  -- igmp and gre are modelled classes here (the `foreign` branches belong to the phase-1 model)
+  rename_i hp
+  have h2 : proto ≠ 2 := fun h => hp (.inr (.inr (.inr ⟨rfl, .inl h⟩)))
+  have h47 : proto ≠ 47 := fun h => hp (.inr (.inr (.inr ⟨rfl, .inr h⟩)))
+  rw [if_neg h2, if_neg h47]
   repeat' split
   all_goals first
     | exact .inl ⟨_, rfl, .inr rfl, trivial⟩
@@ -909,6 +935,62 @@ theorem tcpParseOptsB_spec (arr : Bytes) (hdrLen : Nat) (hh : hdrLen ≤ arr.len
       simp [optsBytes]; omega
 
 
+/-- **The option loop never runs out of model fuel.**  With at least `1 + (hdrLen − i)` rounds available the result of the option
+parser does not depend on the fuel: every round that continues advances `i` (a NOP by 1, any other option by its length ≥ 2), and
+at `i ≥ hdrLen` the loop ends.  `tcpParse` starts it at `i = 20` with `hdrLen = off·4 ≥ 20` rounds, so the `.fail` it turns into
+"parse_options raised, caught" is never the fuel-0 branch. -/
+theorem tcpParseOptsB_fuel (arr : Bytes) (hdrLen bound : Nat) (hb : bound ≤ arr.length) :
+    ∀ (fuel i k : Nat), 1 + (hdrLen - i) ≤ fuel →
+      tcpParseOptsB (fuel + k) arr hdrLen bound i = tcpParseOptsB fuel arr hdrLen bound i := by
+  intro fuel
+  induction fuel with
+  | zero => intro i k h; omega
+  | succ fuel ih =>
+    intro i k h
+    rw [show fuel + 1 + k = (fuel + k) + 1 by omega]
+    unfold tcpParseOptsB
+    by_cases c : i < hdrLen
+    · rw [if_pos c, if_pos c]
+      cases ht : getU8 arr i with
+      | none => rfl
+      | some t =>
+        dsimp only
+        by_cases t0 : t = 0
+        · rw [if_pos t0, if_pos t0]
+        rw [if_neg t0, if_neg t0]
+        by_cases t1 : t = 1
+        · rw [if_pos t1, if_pos t1, ih (i + 1) k (by omega)]
+        rw [if_neg t1, if_neg t1]
+        by_cases c2 : i + 2 > arr.length
+        · rw [if_pos c2, if_pos c2]
+        rw [if_neg c2, if_neg c2]
+        cases hl : getU8 arr (i + 1) with
+        | none => rfl
+        | some length =>
+          dsimp only
+          by_cases c3 : i + length > bound
+          · rw [if_pos c3, if_pos c3]
+          rw [if_neg c3, if_neg c3]
+          by_cases c4 : length < 2
+          · rw [if_pos c4, if_pos c4]
+          rw [if_neg c4, if_neg c4]
+          by_cases t30 : t = 30
+          · rw [if_pos t30, if_pos t30]
+          rw [if_neg t30, if_neg t30]
+          cases hu : tcpOptUnpack arr i t length with
+          | none => rfl
+          | some q =>
+            obtain ⟨i', o⟩ := q
+            dsimp only
+            have := (tcpOptUnpack_spec arr i t length i' o hu (getU8_lt arr i t ht).1 (getU8_lt arr (i + 1) length hl).1 (by omega) (by omega) t0 t1 t30).1
+            rw [ih i' k (by omega)]
+    · rw [if_neg c, if_neg c]
+
+/-- the call `tcpParse` makes: `off·4` rounds from offset 20 are as good as any larger number -/
+theorem tcpParse_opts_fuel (cfg : Cfg) (raw : Bytes) (off : Nat) (h20 : 20 ≤ off * 4) (hd : off * 4 ≤ raw.length) (k : Nat) :
+    tcpParseOptsB (off * 4 + k) raw (off * 4) (if cfg.tcpOptBound then off * 4 else raw.length) 20 =
+    tcpParseOptsB (off * 4) raw (off * 4) (if cfg.tcpOptBound then off * 4 else raw.length) 20 :=
+  tcpParseOptsB_fuel raw (off * 4) _ (by split <;> omega) (off * 4) 20 k (by omega)
 theorem decode_fits (L : Layout) : ∀ (bs : Bytes) (vs : List Val) (r : Bytes), decode L bs = some (vs, r) → fits L vs := by
   induction L with
   | nil => intro bs vs r h; simp [decode] at h; obtain ⟨rfl, _⟩ := h; simp [fits]
@@ -989,7 +1071,7 @@ theorem tcpParse_spec (raw : Bytes) : ∃ f, tcpParse (Cfg.tree fx vr) raw = .ok
       rw [hb]
       cases hr : tcpParseOptsB (offres / 16 * 4) raw (offres / 16 * 4) (offres / 16 * 4) 20 with
       | fail => exact ⟨_, rfl, rfl, trivial⟩
-      | mptcp => exact ⟨_, rfl, rfl, trivial⟩
+      | mptcp => exact ⟨_, rfl, rfl, rfl⟩
       | ok os =>
         obtain ⟨o1, o2⟩ := tcpParseOptsB_spec raw (offres / 16 * 4) (by omega) _ 20 os (by omega) hr
         refine ⟨_, rfl, rfl, rfl, ⟨h1, h2, h3, h4, by show offres % 16 < 16; omega, h6, h7, h9⟩, o1, o2,
@@ -2342,7 +2424,7 @@ structure Rel (next : K → Bytes → P Frame) (nextC : Kind → Bytes → Pkt) 
   lldp : ∀ b g, next .lldp b = .ok g → g.toPkt = .unmodelled "lldp" b
 
 theorem parseNext_ref (cfg : Cfg) (hx : cfg.ext = false) (next : K → Bytes → P Frame) (nextC : Kind → Bytes → Pkt) (hr : Rel next nextC) (t : Nat) (rest : Bytes)
-    (allow : Bool) (g : Frame) (h : parseNext cfg next t rest allow = .ok g) : g.toPkt = Packet.parseNext nextC t rest allow := by
+    (allow : Bool) (g : Frame) (h : parseNext cfg false next t rest allow = .ok g) : g.toPkt = Packet.parseNext nextC t rest allow := by
   unfold parseNext at h
   unfold Packet.parseNext
   by_cases c1 : t = 0x8100
@@ -2372,7 +2454,7 @@ theorem parseNext_ref (cfg : Cfg) (hx : cfg.ext = false) (next : K → Bytes →
   simp [pure, Except.pure] at h; subst h; rfl
 
 theorem ethParse_ref (cfg : Cfg) (hx : cfg.ext = false) (next : K → Bytes → P Frame) (nextC : Kind → Bytes → Pkt) (hr : Rel next nextC) (raw : Bytes) (f : Frame)
-    (h : ethParse cfg next raw = .ok f) : f.toPkt = Packet.ethParse nextC raw := by
+    (h : ethParse cfg false next raw = .ok f) : f.toPkt = Packet.ethParse nextC raw := by
   unfold ethParse at h
   unfold Packet.ethParse
   by_cases c : raw.length < 14
@@ -2381,7 +2463,7 @@ theorem ethParse_ref (cfg : Cfg) (hx : cfg.ext = false) (next : K → Bytes → 
   obtain ⟨dst, src, t, hu, hu', _⟩ := eth_shape (raw.take 14) (take_len raw 14 (by omega))
   simp only [hu] at h
   simp only [hu']
-  cases hn : parseNext cfg next t (raw.drop 14) with
+  cases hn : parseNext cfg false next t (raw.drop 14) with
   | error e => simp [hn] at h
   | ok n =>
     simp [hn, pure, Except.pure] at h
@@ -2389,7 +2471,7 @@ theorem ethParse_ref (cfg : Cfg) (hx : cfg.ext = false) (next : K → Bytes → 
     simp [Frame.toPkt, parseNext_ref cfg hx next nextC hr _ _ _ _ hn]
 
 theorem vlanParse_ref (cfg : Cfg) (hx : cfg.ext = false) (next : K → Bytes → P Frame) (nextC : Kind → Bytes → Pkt) (hr : Rel next nextC) (raw : Bytes) (f : Frame)
-    (h : vlanParse cfg next raw = .ok f) : f.toPkt = Packet.vlanParse nextC raw := by
+    (h : vlanParse cfg false next raw = .ok f) : f.toPkt = Packet.vlanParse nextC raw := by
   unfold vlanParse at h
   unfold Packet.vlanParse
   by_cases c : raw.length < 4
@@ -2398,7 +2480,7 @@ theorem vlanParse_ref (cfg : Cfg) (hx : cfg.ext = false) (next : K → Bytes →
   obtain ⟨x, y, hu, hu', _⟩ := nums2_shape vlanL 2 2 rfl (raw.take 4) (take_len raw 4 (by omega))
   simp only [hu] at h
   simp only [hu']
-  cases hn : parseNext cfg next y (raw.drop 4) with
+  cases hn : parseNext cfg false next y (raw.drop 4) with
   | error e => simp [hn] at h
   | ok n =>
     simp [hn, pure, Except.pure] at h
@@ -2542,7 +2624,7 @@ theorem isUnparsed_toPkt (g : Frame) : Packet.isUnparsed g.toPkt = isUnparsed g 
   | _ => rfl
 
 theorem ipv4Dispatch_ref (cfg : Cfg) (hx : cfg.ext = false) (next : K → Bytes → P Frame) (nextC : Kind → Bytes → Pkt) (hr : Rel next nextC) (frag proto : Nat)
-    (body : Bytes) (short : Bool) (g : Frame) (h : ipv4Dispatch cfg next frag proto body short = .ok g) :
+    (body : Bytes) (short : Bool) (g : Frame) (h : ipv4Dispatch cfg false next frag proto body short = .ok g) :
     g.toPkt = Packet.ipv4Dispatch nextC frag proto body short := by
   unfold ipv4Dispatch at h
   simp only [hx, Bool.false_eq_true, false_and, or_false] at h
@@ -2587,7 +2669,7 @@ theorem ipv4Dispatch_ref (cfg : Cfg) (hx : cfg.ext = false) (next : K → Bytes 
   · rw [if_neg cs] at h ⊢; simp [pure, Except.pure] at h; subst h; simp [Frame.toPkt, Packet.isUnparsed]
 
 theorem ipv4Parse_ref (cfg : Cfg) (hx : cfg.ext = false) (next : K → Bytes → P Frame) (nextC : Kind → Bytes → Pkt) (hr : Rel next nextC) (raw : Bytes) (f : Frame)
-    (h : ipv4Parse cfg next raw = .ok f) : f.toPkt = Packet.ipv4Parse nextC raw := by
+    (h : ipv4Parse cfg false next raw = .ok f) : f.toPkt = Packet.ipv4Parse nextC raw := by
   unfold ipv4Parse at h
   unfold Packet.ipv4Parse
   dsimp only at h ⊢
@@ -2613,7 +2695,7 @@ theorem ipv4Parse_ref (cfg : Cfg) (hx : cfg.ext = false) (next : K → Bytes →
   by_cases c5 : vhl % 16 * 4 > raw.length
   · rw [if_pos c5] at h ⊢; simp [pure, Except.pure] at h; subst h; rfl
   rw [if_neg c5] at h ⊢
-  cases hn : ipv4Dispatch cfg next (ff % 8192) proto (sl raw (vhl % 16 * 4) (if iplen > raw.length then raw.length else iplen))
+  cases hn : ipv4Dispatch cfg false next (ff % 8192) proto (sl raw (vhl % 16 * 4) (if iplen > raw.length then raw.length else iplen))
       (decide (raw.length < iplen)) with
   | error e => simp [hn] at h
   | ok n =>
@@ -2683,8 +2765,8 @@ theorem tcpParse_ref (cfg : Cfg) (hc : cfg.tcpOptBound = true) (raw : Bytes) (f 
   | mptcp => simp [hr, pure, Except.pure] at h; subst h; rfl
   | ok os => simp [hr, pure, Except.pure] at h; subst h; rfl
 
-theorem llcTail_shape (cfg : Cfg) (next : K → Bytes → P Frame) (raw : Bytes) (d s c len : Nat) (g : Frame)
-    (h : llcTail cfg next raw d s c len = .ok g) : g.toPkt = .unmodelled "llc" raw := by
+theorem llcTail_shape (cfg : Cfg) (guard : Bool) (next : K → Bytes → P Frame) (raw : Bytes) (d s c len : Nat) (g : Frame)
+    (h : llcTail cfg guard next raw d s c len = .ok g) : g.toPkt = .unmodelled "llc" raw := by
   unfold llcTail at h
   dsimp only at h
   repeat' split at h
@@ -2692,13 +2774,13 @@ theorem llcTail_shape (cfg : Cfg) (next : K → Bytes → P Frame) (raw : Bytes)
     | (simp [pure, Except.pure] at h; subst h; rfl)
     | simp at h
 
-theorem llcParse_shape (cfg : Cfg) (next : K → Bytes → P Frame) (raw : Bytes) (g : Frame) (h : llcParse cfg next raw = .ok g) :
+theorem llcParse_shape (cfg : Cfg) (guard : Bool) (next : K → Bytes → P Frame) (raw : Bytes) (g : Frame) (h : llcParse cfg guard next raw = .ok g) :
     g.toPkt = .unmodelled "llc" raw := by
   unfold llcParse at h
   repeat' split at h
   all_goals first
     | (simp [pure, Except.pure] at h; subst h; rfl)
-    | exact llcTail_shape _ _ _ _ _ _ _ _ h
+    | exact llcTail_shape _ _ _ _ _ _ _ _ _ h
     | simp at h
 
 theorem lldpParse_shape (cfg : Cfg) (raw : Bytes) (g : Frame) (h : lldpParse cfg raw = .ok g) :
@@ -2710,27 +2792,30 @@ theorem lldpParse_shape (cfg : Cfg) (raw : Bytes) (g : Frame) (h : lldpParse cfg
     | simp at h
 
 /-- the exception-aware parser refines the total parser of C14 -/
-theorem parseD_ref (cfg : Cfg) (hc : cfg.tcpOptBound = true) (hx : cfg.ext = false) : ∀ (d : Nat),
-    Rel (parseD cfg d) (Packet.parse d) := by
+theorem parseD_ref (cfg : Cfg) (hc : cfg.tcpOptBound = true) (hx : cfg.ext = false) (hk1 : cfg.fix.k1 = false) : ∀ (d depth : Nat),
+    Rel (parseD cfg d depth) (Packet.parse d) := by
   intro d
   induction d with
   | zero =>
+    intro depth
     exact ⟨fun k kc b g _ h => by simp [parseD] at h, fun b g h => by simp [parseD] at h, fun b g h => by simp [parseD] at h⟩
   | succ d ih =>
+    intro depth
     refine ⟨?_, ?_, ?_⟩
     · intro k kc b g hk h
-      cases k <;> simp [K.toKind] at hk <;> subst hk <;> simp only [parseD] at h <;> simp only [Packet.parse]
-      · exact ethParse_ref cfg hx _ _ ih _ _ h
-      · exact vlanParse_ref cfg hx _ _ ih _ _ h
+      cases k <;> simp [K.toKind] at hk <;> subst hk <;> simp only [parseD, hk1, Bool.false_and, Bool.false_eq_true, if_false] at h <;>
+        simp only [Packet.parse]
+      · exact ethParse_ref cfg hx _ _ (ih _) _ _ h
+      · exact vlanParse_ref cfg hx _ _ (ih _) _ _ h
       · exact arpParse_ref _ _ h
-      · exact ipv4Parse_ref cfg hx _ _ ih _ _ h
+      · exact ipv4Parse_ref cfg hx _ _ (ih _) _ _ h
       · exact udpParse_ref cfg hx _ _ _ h
       · exact tcpParse_ref cfg hc _ _ h
-      · exact icmpParse_ref _ _ ih _ _ h
+      · exact icmpParse_ref _ _ (ih _) _ _ h
       · exact echoParse_ref _ _ h
-      · exact unreachParse_ref _ _ ih _ _ h
-      · exact timeExParse_ref _ _ ih _ _ h
-    · intro b g h; simp only [parseD] at h; exact llcParse_shape _ _ _ _ h
+      · exact unreachParse_ref _ _ (ih _) _ _ h
+      · exact timeExParse_ref _ _ (ih _) _ _ h
+    · intro b g h; simp only [parseD] at h; exact llcParse_shape _ _ _ _ _ h
     · intro b g h; simp only [parseD] at h; exact lldpParse_shape _ _ _ h
 
 /-! ## nesting is bounded only by the frame length -/
@@ -2751,12 +2836,12 @@ theorem vtags_length (n : Nat) : (vtags n).length = 4 * n := by
 theorem nestFrame_length (n : Nat) : (nestFrame n).length = 14 + 4 * n := by
   simp [nestFrame, vtags_length]; omega
 
-theorem vlan_nest (cfg : Cfg) : ∀ (m n : Nat), m ≤ n → parseD cfg m .vlan (vtags n) = .error .recursion := by
+theorem vlan_nest (cfg : Cfg) (hk1 : cfg.fix.k1 = false) : ∀ (m n depth : Nat), m ≤ n → parseD cfg m depth .vlan (vtags n) = .error .recursion := by
   intro m
   induction m with
-  | zero => intro n _; rfl
+  | zero => intro n _ _; rfl
   | succ m ih =>
-    intro n hn
+    intro n depth hn
     cases n with
     | zero => omega
     | succ n =>
@@ -2764,9 +2849,9 @@ theorem vlan_nest (cfg : Cfg) : ∀ (m n : Nat), m ≤ n → parseD cfg m .vlan 
       have hu : unpackE vlanL ((vtags (n + 1)).take 4) = .ok [.num 1, .num 0x8100] := by
         simp only [vtags, List.cons_append, List.nil_append, List.take_succ_cons, List.take_zero]; rfl
       have hd : (vtags (n + 1)).drop 4 = vtags n := by simp [vtags]
-      simp only [parseD, vlanParse, if_neg hlen, hu, hd, parseNext, if_true, ih n (by omega)]
+      simp only [parseD, hk1, Bool.false_and, Bool.false_eq_true, if_false, vlanParse, if_neg hlen, hu, hd, parseNext, if_true, ih n _ (by omega)]
 
-theorem eth_nest (cfg : Cfg) (d : Nat) : parseD cfg d .eth (nestFrame d) = .error .recursion := by
+theorem eth_nest (cfg : Cfg) (hk1 : cfg.fix.k1 = false) (d : Nat) : parseD cfg d 0 .eth (nestFrame d) = .error .recursion := by
   cases d with
   | zero => rfl
   | succ m =>
@@ -2774,5 +2859,5 @@ theorem eth_nest (cfg : Cfg) (d : Nat) : parseD cfg d .eth (nestFrame d) = .erro
     have hu : unpackE ethL ((nestFrame (m + 1)).take 14) = .ok [.raw (List.replicate 6 0), .raw (List.replicate 6 0), .num 0x8100] := by
       simp only [nestFrame, List.replicate, List.cons_append, List.nil_append, List.take_succ_cons, List.take_zero]; rfl
     have hd : (nestFrame (m + 1)).drop 14 = vtags (m + 1) := by simp [nestFrame, List.replicate]
-    simp only [parseD, ethParse, if_neg hlen, hu, hd, parseNext, if_true, vlan_nest cfg m (m + 1) (by omega)]
+    simp only [parseD, hk1, Bool.false_and, Bool.false_eq_true, if_false, ethParse, if_neg hlen, hu, hd, parseNext, if_true, vlan_nest cfg hk1 m (m + 1) _ (by omega)]
 end Pox.Parse
